@@ -54,6 +54,7 @@ struct NestFrame
 static std::vector<NestFrame> g_nest; // consumed front to back by callback bodies
 static size_t g_nest_pos;
 static std::function<void(const NestFrame&)> g_nested_invoke;
+static std::function<void()> g_body_action; // run once, by the first callback body of a call, before anything else
 static Ctx* g_C;
 
 static long cb_body(int f, void* sbx, long a, unsigned b)
@@ -61,6 +62,11 @@ static long cb_body(int f, void* sbx, long a, unsigned b)
   g_cblog.push_back(CbRec{ f, sbx, a, b });
   if (g_C)
     g_C->ev("callback f%d runs a=%ld b=%u", f, a, b);
+  if (g_body_action) {
+    auto act = std::move(g_body_action);
+    g_body_action = nullptr;
+    act();
+  }
   if (g_nest_pos < g_nest.size()) {
     NestFrame fr = g_nest[g_nest_pos++];
     if (g_C)
@@ -291,10 +297,11 @@ enum Kind
   K_CREATE_SBX,
   K_REGB,
   K_CALLB,
+  K_REG_UNWIND,
   K_COUNT
 };
 static const char* kKind[] = { "reg",         "regv", "fill",  "unreg",    "destroy_owner", "move_construct", "move_assign",
-                               "self_assign", "call", "callv", "call_all", "call_raw",      "destroy_sbx",    "create_sbx", "reg_mixed_signature", "call_mixed_signature" };
+                               "self_assign", "call", "callv", "call_all", "call_raw",      "destroy_sbx",    "create_sbx", "reg_mixed_signature", "call_mixed_signature", "reg_while_unwinding" };
 static_assert(sizeof(kKind) / sizeof(kKind[0]) == K_COUNT);
 
 // ---------------------------------------------------------------- the run, per backend
@@ -793,7 +800,34 @@ struct Runner
             rets.push_back(INT32_MAX);
             rets.push_back(INT32_MIN);
           }
+          // the first callback body may itself change the registrations of a sandbox (of the calling one included):
+          // register a void-pool function, or give up an existing void-pool owner
+          int act = (int)(((uint64_t)op.a[4] / 37) % 6);
+          if (act == 1) {
+            int fs = (int)(((uint64_t)op.a[4] / 222) % (uint64_t)nsbx), fv = 100 + (int)(((uint64_t)op.a[4] / 444) % 8);
+            if (S[(size_t)fs].created && !S[(size_t)fs].reg.count(fv) && live_count(fs) < BT<Sbx>::capacity()) {
+              g_body_action = [this, fs, fv] {
+                c.probe("registration_made_inside_a_callback");
+                do_reg(fs, fv, false);
+              };
+            }
+          } else if (act == 2) {
+            auto vs = live_slots(-1, 1);
+            if (!vs.empty()) {
+              size_t vi = vs[((uint64_t)op.a[4] / 222) % vs.size()];
+              g_body_action = [this, vi] {
+                c.probe("owner_released_inside_a_callback");
+                Slot& vsl = slots[vi];
+                Outcome ro = attempt([&] { vsl.v.reset(); });
+                if (ro != OK)
+                  c.violate("C13", "release_of_owner_aborts@call", "inside a callback body: %s", g_last_abort_msg.c_str());
+                else
+                  release_model(vsl);
+              };
+            }
+          }
           do_call(si, a, b, times, rets, nest);
+          g_body_action = nullptr;
           break;
         }
         case K_CALLV: {
@@ -858,6 +892,26 @@ struct Runner
         case K_REGB:
           do_reg(s, 200 + (int)(op.a[1] & 1), false);
           break;
+        case K_REG_UNWIND: {
+          // a registration made by a destructor that runs while an unrelated exception unwinds the stack is a
+          // registration like any other
+          int f = (int)((uint64_t)op.a[1] % POOL);
+          struct InDtor
+          {
+            Runner& r;
+            int s, f;
+            ~InDtor() { r.do_reg(s, f, false); }
+          };
+          try {
+            InDtor guard{ *this, s, f };
+            throw std::runtime_error("an unrelated failure is being unwound");
+          } catch (const std::runtime_error&) {
+          }
+          c.probe("registration_made_while_an_exception_unwinds");
+          if (!c.stop && S[(size_t)s].created && S[(size_t)s].reg.count(f))
+            do_reg(s, f, false); // ... in particular the same function cannot be registered a second time
+          break;
+        }
         case K_CALLB: {
           auto lv = live_slots(-1, 2);
           if (lv.empty())
@@ -979,7 +1033,7 @@ struct CallbackWorld : World
     int nsbx = (int)r.range(1, NSBX);
     p.cfg = { backend, slots, nsbx };
     int n = (int)r.range(4, thorough ? 60 : 40);
-    std::vector<unsigned> w = { 14, 4, 3, 6, 6, 4, 7, 2, 12, 3, 2, 4, 2, 3, 4, 7 };
+    std::vector<unsigned> w = { 14, 4, 3, 6, 6, 4, 7, 2, 12, 3, 2, 4, 2, 3, 4, 7, 3 };
     for (auto& x : w)
       if (r.chance(1, 6))
         x = 0;
@@ -1003,7 +1057,7 @@ struct CallbackWorld : World
         unsigned c = (unsigned)r.below(6);
         o.a[2] = c == 0 ? INT32_MAX - 4 : c == 1 ? INT32_MIN : c == 2 ? -1 : r.range(-100000, 100000);
         o.a[3] = r.chance(1, 4) ? 0xFFFFFFFFLL : (int64_t)r.below(100000);
-        o.a[4] = (int64_t)r.below(60);
+        o.a[4] = (int64_t)r.below(60) + 60 * (int64_t)r.below(4000); // low part: times / return script; high part: what the first body does to the registrations
         o.a[5] = (int64_t)r.below(1 << 20);
       }
       if (o.kind == K_CALL_RAW)
